@@ -314,11 +314,24 @@ class ProcessRunner(Runner, ABC):
 
     def _consume_log_queue(self):
         # See: https://docs.python.org/3/howto/logging-cookbook.html#logging-to-a-single-file-from-multiple-processes
-        while True:
-            try:
-                record = self.log_queue.get_nowait()
-            except Empty:
-                break
+        records = []
+
+        def _consume():
+            while True:
+                try:
+                    records.append(self.log_queue.get_nowait())
+                except Empty:
+                    break
+
+        # As for the result queue, consume the log queue in a thread so
+        # that a KeyboardInterrupt cannot interrupt the communication
+        # with the queue's manager part-way through a message (which
+        # breaks the connection for all later calls).
+        consumer_thread = Thread(target=_consume)
+        consumer_thread.start()
+        consumer_thread.join()
+
+        for record in records:
             logger = logging.getLogger(record.name)
             logger.handle(record)
 
